@@ -1881,10 +1881,16 @@ class SolveUnc(_BaseODE):
                 a_rb = force[rb]
             if "d" in incrb or "v" in incrb:
                 pvnz = freqw != 0
+                if isinstance(rb, slice):
+                    rbnz = (rb, pvnz)
+                else:
+                    # rb is an index vector: pair every rb row with
+                    # every non-zero frequency
+                    rbnz = np.ix_(rb, pvnz.nonzero()[0])
                 if "v" in incrb:
-                    v[rb, pvnz] = (-1j / freqw[pvnz]) * a_rb[:, pvnz]
+                    v[rbnz] = (-1j / freqw[pvnz]) * a_rb[:, pvnz]
                 if "d" in incrb:
-                    d[rb, pvnz] = (-1.0 / freqw2[pvnz]) * a_rb[:, pvnz]
+                    d[rbnz] = (-1.0 / freqw2[pvnz]) * a_rb[:, pvnz]
             if "a" in incrb:
                 a[rb] = a_rb
 
